@@ -78,6 +78,7 @@ impl<'buf, B: MutRB<Item = T>, T> WorkIter<'buf, B> {
     pub fn reset_index(&mut self) {
         let new_idx = self.succ_index();
         self.index = new_idx;
+        self.cached_avail = 0;
         self.set_atomic_index(new_idx);
     }
 }
